@@ -560,7 +560,7 @@ def i_JP(i_, fmap):
 
 def i_JPcc(i_, fmap):
     src = i_.operands[1]
-    fmap[pc] = tst(i_.cond[1], fmap(src), fmap[pc] + i_.length)
+    fmap[pc] = tst(fmap(i_.cond[1]), fmap(src), fmap[pc] + i_.length)
 
 
 def i_JR(i_, fmap):
@@ -572,7 +572,7 @@ def i_JR(i_, fmap):
 def i_JRcc(i_, fmap):
     src = i_.operands[1]
     fmap[pc] = fmap[pc] + i_.length
-    fmap[pc] = tst(i_.cond[1], fmap[pc] + fmap(src), fmap[pc])
+    fmap[pc] = tst(fmap(i_.cond[1]), fmap[pc] + fmap(src), fmap[pc])
 
 
 def i_DJNZ(i_, fmap):
@@ -595,8 +595,8 @@ def i_CALL(i_, fmap):
 def i_CALLcc(i_, fmap):
     src = i_.operands[1]
     _back = fmap[pc] + i_.length
-    _push_cc(fmap, i_.cond[1], _back)
-    fmap[pc] = tst(i_.cond[1], fmap(src), _back)
+    _push_cc(fmap, fmap(i_.cond[1]), _back)
+    fmap[pc] = tst(fmap(i_.cond[1]), fmap(src), _back)
 
 
 def i_RET(i_, fmap):
@@ -605,7 +605,7 @@ def i_RET(i_, fmap):
 
 def i_RETcc(i_, fmap):
     _back = fmap[pc] + i_.length
-    _pop_cc(fmap, i_.cond[1], _back)
+    _pop_cc(fmap, fmap(i_.cond[1]), _back)
 
 
 def i_RETI(i_, fmap):
@@ -619,7 +619,7 @@ def i_RETN(i_, fmap):
 
 def i_RST(i_, fmap):
     src = i_.operands[0]
-    _push_(fmap, pc)
+    _push_(fmap, fmap(pc))
     fmap[pc] = src.zeroextend(16)
 
 
